@@ -22,7 +22,7 @@ var subC04 = core.NewSub("C04/decode", func(w *core.Worker, c decodeCase) *core.
 	in, full := withSlack(c.In)
 	prior := alpha.MakePoint(ref.Mul(big.NewInt(5), ref.Base()), 6)
 	priorRaw := alpha.PointRaw(prior)
-	v := alpha.PointFromRaw(priorRaw)
+	v := new(edwards25519.Point).Set(prior)
 	ret, err := v.SetBytes(in)
 	if !slackIntact(full, c.In) {
 		return core.Failf("SetBytes modified its input")
@@ -95,6 +95,24 @@ func decodeAlphabet(ctx *core.Ctx) []decodeCase {
 			add(x)
 		}
 	}
+	// (e) targeted encodings: inside decoding, SQRT_RATIO_M1 compares v*r^2
+	// (which is s*u for a unit s in {1,-1,i,-i}, u = y^2-1) with t*u for other
+	// units t; y is chosen so that (s-t)*u is exactly a single bit or a
+	// limb-corner pattern: u = delta/(s-t), y^2 = u+1
+	for _, u := range sqrtRatioTargets() {
+		y2 := ref.FAdd(u, ref.One)
+		if !ref.FIsSquare(y2) {
+			continue
+		}
+		y := ref.FSqrtEven(y2)
+		for _, yy := range []*big.Int{y, ref.FNeg(y)} {
+			for sgn := 0; sgn < 2; sgn++ {
+				b := ref.LE32(yy)
+				b[31] |= byte(sgn) << 7
+				add(b[:])
+			}
+		}
+	}
 	// (d) lengths
 	e := ref.Encode(ref.Base())
 	for n := 0; n <= 130; n++ {
@@ -141,7 +159,7 @@ var subC13 = core.NewSub("C13/import", func(w *core.Worker, c quadCase) *core.Fa
 	valid := ref.ExtendedValid(v[0], v[1], v[2], v[3])
 	prior := alpha.MakePoint(ref.Mul(big.NewInt(5), ref.Base()), 6)
 	priorRaw := alpha.PointRaw(prior)
-	p := alpha.PointFromRaw(priorRaw)
+	p := new(edwards25519.Point).Set(prior)
 	ret, err := p.SetExtendedCoordinates(&e[0], &e[1], &e[2], &e[3])
 	if e != e0 {
 		return core.Failf("SetExtendedCoordinates modified an argument")
